@@ -86,6 +86,15 @@ CHECKS = {
         "instrumented). Programs ending in a Laufzeitfehler are exempt from the leak requirement (the runtime exits without unwinding).",
    technique="TLA+ allocator protocol + TLC trace validation of recorded allocation ledgers + sanitizer runs",
    ref="§4 C05"),
+ "C11": dict(
+   text="The semantics (DDPSem/DDPRun) has no notion of optimisation level or link mode: it assigns one behaviour per program. Generated core-language programs are built under "
+        "{-O0,-O1,-O2} x {modules linked into one LLVM module, compiled separately} x {list definitions linked, separate object}; TLC validates the observation (stdout, "
+        "Laufzeitfehler, exit status) of every configuration against that one behaviour, so all configurations agree with the specification and hence with each other.",
+   note="'modules not linked' is realised outside kddp (Duden/Ausgabe compiled on its own, its ddp_ddpmain localised with objcopy, all objects linked): at -O0 this arrangement "
+        "does not link (clashing names of unnamed constants) and is counted as unrealisable, not judged. The combination modules-unlinked + list-defs-linked defines the list "
+        "functions once per object and cannot be linked for programs with imports. The -O2 copy-elision defect is a known finding.",
+   technique="TLA+ executable semantics as the single reference behaviour + TLC trace validation of every build configuration",
+   ref="§4 C11"),
 }
 PENDING = {}
 
